@@ -192,3 +192,9 @@ def all_digraphs(n):
 def rand_digraph(rnd, n, density=None):
     d = density if density is not None else rnd.choice([0.1, 0.2, 0.3, 0.5])
     return [[a, b] for a in range(n) for b in range(n) if rnd.random() < d]
+
+
+def samp(rnd, xs, k):
+    """sample without replacement, capped at the population size"""
+    xs = list(xs)
+    return rnd.sample(xs, min(k, len(xs)))
